@@ -186,6 +186,22 @@ theorem scatter_count (n k : ℕ) (ix : Fin k → Fin n) (hinj : Function.Inject
     ext p; simp
   rw [h, Finset.card_image_of_injective _ hinj]; simp
 
+/-- C11: the rows selected by a mask and by its complement together are all rows. -/
+theorem rank_complement (n : ℕ) (m : Fin n → Bool) :
+    (Finset.univ.filter (fun p : Fin n => m p = false)).card + (Finset.univ.filter (fun p : Fin n => m p = true)).card = n := by
+  have h := Finset.card_filter_add_card_filter_not (s := (Finset.univ : Finset (Fin n))) (fun p => m p = true)
+  simp only [Finset.card_univ, Fintype.card_fin] at h
+  have h2 : (Finset.univ.filter (fun p : Fin n => ¬ (m p = true))) = (Finset.univ.filter (fun p : Fin n => m p = false)) := by
+    ext p; simp
+  rw [h2] at h; omega
+
+theorem rank_none_or_all (n : ℕ) (m : Fin n → Bool) :
+    ((∀ p, m p = false) → (Finset.univ.filter (fun p : Fin n => m p = true)).card = 0) ∧
+    ((∀ p, m p = true) → (Finset.univ.filter (fun p : Fin n => m p = true)).card = n) := by
+  constructor
+  · intro h; simp [h]
+  · intro h; simp [h]
+
 /-- C11: a boolean selection splits a list into two parts that together are a permutation of it. -/
 theorem filter_partition {α : Type} (p : α → Bool) (l : List α) :
     List.Perm (l.filter p ++ l.filter (fun x => !p x)) l :=
